@@ -31,18 +31,21 @@ def predict_rule(ctx, rule, inst):
     E = e6.Exec(c, fn)
     paths = [p for p in E.run_fn() if p.exit is None or p.exit[0] == "return"]
     inp = ("p", pat_binds(fn["params"][1])[0][0])
-    ok = len(paths) == 1 and not paths[0].pc
+    ok = len(paths) == 1
     got = "?"
     if ok:
         val = paths[0].val if paths[0].exit is None else paths[0].exit[1]
         got = e6.show(val, 2)
         a = e6.is_call(val, "unwrap", 1) or e6.is_call(val, "expect")
+        if a is None and isinstance(val, tuple) and len(val) == 4 and val[0] == "payload" and val[2] == "Option::Some" and val[3] == 0 \
+                and paths[0].pc == ((("is", val[1], "Option::Some"), True),):
+            a = (val[1],)          # `match opt { Some(v) => v, None => panic!() }` is unwrap
         b = (e6.is_call(a[0], "last", 1) or e6.is_call(a[0], "pop", 1)) if a else None
         src = b[0] if b else None
         ok = src == e6.mk_proj(("call", "network::Network::forward", (("p", "self"), inp)), 1)
         # nothing else happens to the forward result (no other evaluation path, no mutation besides taking the last element)
         others = [e for e in paths[0].eff if not (e[0] == "mut" and e[1].endswith("::pop"))]
-        ok = ok and not others
+        ok = ok and not others and (not paths[0].pc or e6.is_call(val, "unwrap", 1) is None and e6.is_call(val, "expect") is None and a is not None and len(paths[0].pc) == 1)
     ctx.check(rule, inst, ok, "predict-body:" + short(got, 100), c.loc(fn), "predict = forward(input).1.last(), unconditionally",
               "predict evaluates to `%s`; it must be the final activation of forward() on every path (a shortcut that bypasses forward drops skip/loop connections)" % short(got, 200))
 
